@@ -1,0 +1,66 @@
+//go:build verif
+
+// Package c05 re-exports, for the /verif harness of property C05 only, the parts
+// of internal/rsm that a different module cannot import. Compiled only with
+// -tags verif.
+package c05
+
+import (
+	"github.com/lni/dragonboat/v4/config"
+	"github.com/lni/dragonboat/v4/internal/rsm"
+	"github.com/lni/dragonboat/v4/internal/vfs"
+	pb "github.com/lni/dragonboat/v4/raftpb"
+	sm "github.com/lni/dragonboat/v4/statemachine"
+)
+
+type (
+	StateMachine         = rsm.StateMachine
+	Task                 = rsm.Task
+	SSRequest            = rsm.SSRequest
+	SSMeta               = rsm.SSMeta
+	SSEnv                = rsm.SSEnv
+	SSVersion            = rsm.SSVersion
+	ISavable             = rsm.ISavable
+	ILoadable            = rsm.ILoadable
+	IRecoverable         = rsm.IRecoverable
+	IStreamable          = rsm.IStreamable
+	INode                = rsm.INode
+	ISnapshotter         = rsm.ISnapshotter
+	IManagedStateMachine = rsm.IManagedStateMachine
+	SnapshotWriter       = rsm.SnapshotWriter
+	SnapshotReader       = rsm.SnapshotReader
+	SessionView          = rsm.VerifC05Session
+	IFS                  = vfs.IFS
+)
+
+// LRUMaxSessionCount reads rsm.LRUMaxSessionCount.
+func LRUMaxSessionCount() uint64 { return rsm.LRUMaxSessionCount }
+
+// SetLRUMaxSessionCount sets the exported package variable rsm.LRUMaxSessionCount.
+func SetLRUMaxSessionCount(n uint64) { rsm.LRUMaxSessionCount = n }
+
+// NewRegularSM wraps a user IStateMachine the way the node host does.
+func NewRegularSM(cfg config.Config, u sm.IStateMachine, done <-chan struct{}) IManagedStateMachine {
+	return rsm.NewNativeSM(cfg, rsm.NewInMemStateMachine(u), done)
+}
+
+// NewStateMachine is rsm.NewStateMachine.
+func NewStateMachine(m IManagedStateMachine, ss ISnapshotter, cfg config.Config, node INode, fs IFS) *StateMachine {
+	return rsm.NewStateMachine(m, ss, cfg, node, fs)
+}
+
+// NewSnapshotWriter is rsm.NewSnapshotWriter.
+func NewSnapshotWriter(fp string, ct pb.CompressionType, fs IFS) (*SnapshotWriter, error) {
+	return rsm.NewSnapshotWriter(fp, ct, fs)
+}
+
+// NewSnapshotReader is rsm.NewSnapshotReader.
+func NewSnapshotReader(fp string, fs IFS) (*SnapshotReader, pb.SnapshotHeader, error) {
+	return rsm.NewSnapshotReader(fp, fs)
+}
+
+// Dump is (*rsm.StateMachine).VerifC05Dump.
+func Dump(s *StateMachine) (uint64, []SessionView) { return s.VerifC05Dump() }
+
+// NewMemFS returns the in-memory file system of internal/vfs.
+func NewMemFS() IFS { return vfs.NewMemFS() }
